@@ -111,7 +111,10 @@ class Interp:
         if name == "re":
             return ModStub("re", {"compile": Builtin("re.compile", lambda p, *a: RegexObj(p))})
         if name == "os":
-            return ModStub("os", {"path": ModStub("os.path", {"exists": Builtin("os.path.exists", self._exists)})})
+            # ghost-filesystem contracts of the os.path predicates the repo (or a plausible change to it) uses
+            return ModStub("os", {"path": ModStub("os.path", {
+                "exists": Builtin("os.path.exists", self._exists), "isfile": Builtin("os.path.isfile", self._exists),
+                "getsize": Builtin("os.path.getsize", self._getsize)})})
         if name == "sys":
             return ModStub("sys", {"exit": Builtin("sys.exit", self._sys_exit), "argv": []})
         if name == "copy":
@@ -122,6 +125,11 @@ class Interp:
 
     def _exists(self, p):
         return p in self.fs
+
+    def _getsize(self, p):
+        if p not in self.fs:
+            raise PyRaise(self.mk_exc("FileNotFoundError", p))
+        return len(self.fs[p])
 
     def _sys_exit(self, code=0):
         raise PyRaise(self.mk_exc("SystemExit", code))
